@@ -309,7 +309,7 @@ def r06_4(ctx, A, chk):
                 for p in explore(f, max_visits=1, havoc=True, limit=200):
                     for (k, b2, c2, args, t2) in path_calls(p):
                         if t2 is t:
-                            clos = [x[1] for a in args for x in walk(a) if x[0] == 'closure' and x[1] in lib.fns and chk.path in cg.reachable([x[1]])]
+                            clos = [a[1] for a in args if a[0] == 'closure' and a[1] in lib.fns and chk.path in cg.reachable([a[1]])]
                     if clos:
                         break
                 if not clos:
